@@ -46,6 +46,10 @@ const (
 	// renamed into place. The operation may fail (it does) or get the content across some other atomic way; it must
 	// not write the destination in place.
 	tmpExplicitForeign = "explicit_TempDir_other_mount"
+	// AtomicFileOptions.TempDir names a directory that does not exist (any more). The operation may fail (it does) or
+	// cope; whatever it writes before a crash, the caller-specified temporary location is the only place where
+	// something may be left - not the destination's directory.
+	tmpExplicitMissing = "explicit_TempDir_that_does_not_exist"
 )
 
 type caseDef struct {
@@ -426,6 +430,28 @@ func zipArchiveDamaged(files map[string][]byte, order []string, damage string) [
 	return buf.Bytes()
 }
 
+// gzipMembers compresses b as k concatenated gzip members (what `cat a.gz b.gz`, pigz -i or bgzip produce): the
+// uncompressed content of such a file is the concatenation of its members.
+func gzipMembers(b []byte, k int) []byte {
+	if k <= 1 || len(b) < k {
+		return gzipBytes(b)
+	}
+	var out []byte
+	// a short first member, the rest in equal parts
+	cut := []int{0, 17 % len(b)}
+	if cut[1] == 0 {
+		cut[1] = 1
+	}
+	for i := 2; i < k; i++ {
+		cut = append(cut, cut[1]+(len(b)-cut[1])*(i-1)/(k-1))
+	}
+	cut = append(cut, len(b))
+	for i := 0; i+1 < len(cut); i++ {
+		out = append(out, gzipBytes(b[cut[i]:cut[i+1]])...)
+	}
+	return out
+}
+
 func gzipBytes(b []byte) []byte {
 	var buf bytes.Buffer
 	zw := gzip.NewWriter(&buf)
@@ -547,6 +573,10 @@ func build(c caseDef) (*built, error) {
 			spec.TempDir = foreignDir
 			spec.ErrorAllowed = true
 		}
+		if c.Tmp == tmpExplicitMissing {
+			spec.TempDir = filepath.Join(stage, "gone")
+			spec.ErrorAllowed = true
+		}
 		tg := target{Path: dest, Kind: "file", NewData: newData, SingleFile: true}
 		if c.Op == shared.OpCreateAtomic && c.FailAfter >= 0 {
 			spec.FailAfter = c.FailAfter
@@ -554,7 +584,11 @@ func build(c caseDef) (*built, error) {
 			tg.Untouched = true
 		}
 		b.exp.Targets = []target{tg}
-		renameioTemps(dest)
+		if c.Tmp == tmpExplicitMissing {
+			b.exp.Temps = append(b.exp.Temps, tempRule{Dir: spec.TempDir, Pattern: tempPattern(dest), Kind: "file"})
+		} else {
+			renameioTemps(dest)
+		}
 
 	case shared.OpSymlink:
 		dest := filepath.Join(dst, "current")
@@ -748,7 +782,13 @@ func build(c caseDef) (*built, error) {
 		packed := filepath.Join(storage, "x", "data_v1-0-0.txt.gz")
 		dest := filepath.Join(storage, "x", "data_v1-0-0.txt")
 		spec.Dest = dest
-		if err := writeFileMode(packed, gzipBytes(newData), 0o644); err != nil {
+		// every other packed file consists of two or three gzip members
+		members := 1
+		if c.NewSeed%2 == 0 {
+			members = 2 + int(c.NewSeed/2%2)
+			stats.Class("unpack_of_a_gzip_file_with_several_members")
+		}
+		if err := writeFileMode(packed, gzipMembers(newData, members), 0o644); err != nil {
 			return nil, err
 		}
 		tg := target{Path: dest, Kind: "file", NewData: newData, SingleFile: true}
